@@ -30,6 +30,8 @@ Inductive label :=
 | LBudget (n : nid) (k : N)              (* arm the crash point: n freezes at its (k+1)-th storage write from now *)
 | LPad (n : nid) (k : N)                 (* harness configuration: n's state machine pads its snapshots with k zero bytes *)
 | LDefer (n : nid)                       (* scheduler: the goroutine at the head of n's run queue takes the lock after the others *)
+| LRoMissed (n : nid)                    (* scheduler: readOnlyCond was broadcast while readOnlyLoop was not waiting (it releases the
+                                            lock around every Apply of a read): the wake-up is lost *)
 (* goroutines / loops taking the lock; [settle] fires these *)
 | LTask (n : nid)
 | LElectionRun (n : nid) | LCommit (n : nid) | LApply (n : nid) | LRo (n : nid)
@@ -133,7 +135,7 @@ Definition label_node (l : label) (w : world) : option nid :=
   | LCrash n | LRestart n | LTask n | LElectionRun n | LCommit n | LApply n | LRo n | LInstallResume n => Some n
   | LDeliver c | LDup c => option_map c_dst (get_call w c)
   | LReply c | LFail c => option_map c_src (get_call w c)
-  | LBudget n _ | LPad n _ | LDefer n => Some n
+  | LBudget n _ | LPad n _ | LDefer n | LRoMissed n => Some n
   | LTick _ => None
   end.
 
@@ -197,6 +199,7 @@ Definition step (w : world) (l : label) : world :=
   | LBudget n k => on_node w n (fun m => m <| n_budget := Some k |>)
   | LPad n k => on_node w n (fun m => m <| n_pad := k |>)
   | LDefer n => on_node w n (fun m => m <| n_tasks := tl (n_tasks m) ++ firstn 1 (n_tasks m) |>)
+  | LRoMissed n => on_node w n (fun m => m <| n_cv ::= fun c => c <| cv_ro := false |> |>)
   end.
 
 Definition run (w : world) (ls : list label) : world := fold_left step ls w.
